@@ -215,7 +215,7 @@ func runCtlScenario(w *ndWriter, seed int64, variant string, idx int) bool {
 	var slowNow time.Duration
 	cf := mkFilter(ctlFilter)
 	var realFilter filter.Filter = cf
-	if variant == "watch" || variant == "timing" {
+	if variant == "watch" || variant == "timing" || variant == "relist" {
 		realFilter = slowFilter(cf, &slowNow)
 	}
 	b := kcache.NewBuilder().Context(ctx).Log(newLog(pert)).Client(srv).Filter(tr.RegisterFilter(realFilter, ctlFilter))
@@ -244,9 +244,21 @@ func runCtlScenario(w *ndWriter, seed int64, variant string, idx int) bool {
 	case "relist", "listfail":
 		n := 8 + rng.Intn(25)
 		for i := 0; i < n && !isClosed(ctl.Done()); i++ {
+			// now and then the controller is slow, so that forwarded watch events are still queued when a list completes
+			if variant == "relist" {
+				switch rng.Intn(5) {
+				case 0:
+					slowNow = time.Duration(1000+rng.Intn(4000)) * time.Microsecond
+				case 1, 2:
+					slowNow = 0
+				}
+			}
 			s.mutate()
-			time.Sleep(time.Duration(rng.Intn(12000)) * time.Microsecond)
+			if rng.Intn(3) != 0 {
+				time.Sleep(time.Duration(rng.Intn(12000)) * time.Microsecond)
+			}
 		}
+		slowNow = 0
 		if variant == "listfail" {
 			// the failing list must stop the controller by itself
 			select {
